@@ -77,3 +77,19 @@ package metricsdata
 //@   loop 2 invariant ctx != nil && len(ctx.scanners) == len(metricBlocks) && ctx.seriesIDs != nil && (rangeindex >= 0 ==> len(ctx.targetFields) > 0) && ctx.sourceRange.Start <= blockStart(reader) && blockEnd(reader) <= ctx.sourceRange.End
 //@   loop 2 invariant forall(i, 0, idx, ctx.scanners[i] != nil && ctx.sourceRange.Start <= blockStart(cast(ctx.scanners[i].reader, "MetricReader")) && blockEnd(cast(ctx.scanners[i].reader, "MetricReader")) <= ctx.sourceRange.End)
 //@ end
+
+//@ # ---- field data of a series entry (C03): the merger asks every input block for the data of every field of the merged
+//@ # metric; a block that does not hold a field must answer "no data" - also when it holds exactly one (other) field,
+//@ # otherwise that field's values appear under the wrong field after a compaction ------------------------------------
+//@ func github.com/lindb/lindb/pkg/encoding.FixedOffsetDecoder.GetBlock
+//@   assume
+//@   modifies nothing
+//@ end
+//@ func fieldReader.GetFieldData
+//@   prop C03
+//@   requires r.fieldOffsets != nil
+//@   modifies nothing
+//@   ensures[a_field_that_the_block_does_not_hold_has_no_data] !has(r.fieldIndexes, fieldID) ==> result == nil
+//@   ensures[a_closed_reader_hands_out_nothing] r.completed ==> result == nil
+//@   ensures[the_only_field_of_a_block_is_the_series_entry] (!r.completed && has(r.fieldIndexes, fieldID) && r.fieldCount == 1) ==> result == r.seriesEntry
+//@ end
